@@ -46,12 +46,20 @@ ASSUMPTIONS = [
     'table columns are compared as parsed bytes (the code compares upper-cased hex text): equivalent while networks.json writes '
     'each prefix in one case; DEFAULT_NETWORK "bitcoin" is a constant of the model (validated by the correspondence)',
     'the Base58 lower-casing retry switch of the model is irrelevant for every generated input (none contains I or O)',
+    'requests pubrt (public-only import / export / re-import over points with short coordinates) and bip38rt (BIP38 text through '
+    'Key(), HDKey(), bip38_decrypt()) are outside the Gallina model (the driver answers UNMODELLED: no curve arithmetic, no scrypt / '
+    'AES there) and are judged by the independent oracle only: coordinates and encodings recomputed from the request, secret / '
+    'compression flag / public bytes / WIF of the re-imported key recomputed from the exported secret and the frozen table',
 ]
 RULE = ('exhaustive table stream (every network x private/public x witness type x multisig; every prefix x filter combination; '
         'all 256 version bytes), export-import round trips over all table rows with secrets having 0..8 leading zero bytes, '
         'depths 0..255, boundary child numbers, with and without hints, raw forms, classification of well-formed and mutated strings; '
         'sessions on one Key / HDKey object (scripted histories on every network + random call sequences: explicit prefixes, witness '
         'types, multisig flags, child_index, network_change, public(), address(compressed), raw forms, encrypt), every export re-imported; '
+        'public-only imports in every form (compressed / uncompressed hex and bytes, point tuple, HDKey, xpub) of curve points whose x or y '
+        'has 1..16, 24, 32, 48, 62 leading zero nibbles (built from the curve equation with a cube / square root) and of small secrets with '
+        'y or x below 2^252 / 2^248, every public export read in both orders and imported again (pubrt); the BIP38 text of compressed and '
+        'uncompressed keys of every network through Key(), HDKey() and bip38_decrypt() (bip38rt); '
         'a case is non-trivial when the implementation returns a value; distinct by request')
 
 # ---------------------------------------------------------------- independent protocol-level helpers
@@ -396,6 +404,28 @@ def gen_cases(rng, tier):
     # --- F. sessions: several calls on ONE Key / HDKey object (kind seq)
     for req in gen_sessions(rng, big, nets, pool):
         add('seq', req)
+
+    # --- G. PUBLIC-ONLY imports in every form, over points whose x or y has leading zero nibbles / bytes (the padding of every
+    #        exported coordinate), every public export read (both orders) and imported again
+    FORMS = ['ch', 'cb', 'uh', 'ub', 'hch', 'hcb', 'pt', 'xpub', 'xpubw']
+    pts = short_points(rng, 3 if big else 1)
+    for si in range(0, len(pool), 1 if big else 6):
+        pts.append(('pool%d' % si, pool[si][1], pool[si][2]))
+    for pi, (tag, pubc, pubu) in enumerate(pts):
+        forms = FORMS if (big or tag.startswith(('y1', 'y2', 'x1', 'x2', 'secret')) and len(tag) <= 12) else \
+            ['ch', 'ub'] + rng.sample(FORMS, 2)
+        for f in dict.fromkeys(forms):
+            add('pub_short_' + tag[0], 'pubrt %s %s %s %s' % (f, hx(pubc), hx(pubu), 'cu'[(pi + len(cs)) % 2]))
+    # --- H. BIP38 text through EVERY import entry point, compressed and uncompressed, every network (scrypt: ~0.5 s per call)
+    for ni, n in enumerate(nets):
+        for comp in (False, True):
+            if not big and comp and ni % 3:
+                continue
+            sec = pool[(ni * 2 + comp) % len(pool)][0]
+            pw = bytes(rng.choice(b'abcXYZ019 _') for _ in range(rng.randrange(1, 9))).hex()
+            vias = 'khf' if big or ni % 4 == 0 else ('kh' if not comp else 'h')
+            add('bip38_entry', 'bip38rt %s %s %s %s %s %s' % ('KH'[(ni + comp) % 2], n, hx(sec), tfs(comp), pw, vias))
+    add('bip38_entry', 'bip38rt K bitcoin %s f %s nkh' % (hx(pool[2][0]), b'pw'.hex()))
     return cs
 
 
@@ -691,6 +721,115 @@ def prop_check(c, out):
         return check_nbw(t, out)
     if k == 'seq':
         return check_seq(t, out)
+    if k == 'pubrt':
+        return check_pubrt(t, out)
+    if k == 'bip38rt':
+        return check_bip38rt(t, out)
+    return None
+
+
+# ---------------------------------------------------------------- public points with short coordinates; BIP38 entry points
+def cube_root(a):
+    """p = 7 (mod 9): a cubic residue a has the root a^((p+2)/9); None when a is no cube"""
+    a %= P
+    r = pow(a, (P + 2) // 9, P)
+    return r if pow(r, 3, P) == a else None
+
+
+def point_pubs(x, y):
+    assert 0 <= x < P and 0 <= y < P and (y * y - x * x * x - 7) % P == 0
+    xb, yb = x.to_bytes(32, 'big'), y.to_bytes(32, 'big')
+    return bytes([2 + (y & 1)]) + xb, b'\x04' + xb + yb
+
+
+def short_points(rng, per_width):
+    """curve points whose y (resp. x) has 1 .. 16 leading zero NIBBLES, built from the curve equation (no secret is known
+    for them: public-only imports need none) + the first small secrets whose y / x is below 2^252 and 2^248"""
+    out = []
+    for k in list(range(1, 17)) + [24, 32, 48, 62]:
+        got = 0
+        while got < per_width:
+            y = rng.randrange(16 ** (63 - k), 16 ** (64 - k))
+            x = cube_root(y * y - 7)
+            if x is None:
+                continue
+            out.append(('y%d' % k,) + point_pubs(x, y))
+            got += 1
+        got = 0
+        while got < per_width:
+            x = rng.randrange(16 ** (63 - k), 16 ** (64 - k))
+            y2 = (x * x * x + 7) % P
+            y = pow(y2, (P + 1) // 4, P)
+            if y * y % P != y2:
+                continue
+            if rng.randrange(2):
+                y = P - y
+            out.append(('x%d' % k,) + point_pubs(x, y))
+            got += 1
+    pt, d, need = None, 0, {'y1': 3, 'y2': 1, 'x1': 3, 'x2': 1}
+    while any(need.values()) and d < 4000:
+        d += 1
+        pt = ec_add(pt, G)
+        for c, v in (('y', pt[1]), ('x', pt[0])):
+            k = 64 - len('%x' % v)
+            if k >= 1 and need.get('%s%d' % (c, min(k, 2)), 0) > 0:
+                need['%s%d' % (c, min(k, 2))] -= 1
+                out.append(('secret%d_%s%d' % (d, c, k),) + point_pubs(*pt))
+    return out
+
+
+def check_pubrt(t, out):
+    form, pubc, pubu = t[1], unhx(t[2]), unhx(t[3])
+    if not out.startswith('PUB '):
+        return 'public key %s (%s form) is refused: %s' % (pubc.hex(), form, out[:60])
+    first, re_, au = out[4:].split(' | ')
+    d = parse_kv(first)
+    want_c, want_u = pubc.hex(), pubu.hex()
+    own = want_u if form in ('uh', 'ub') else want_c
+    exp = {'pch': want_c, 'puh': want_u, 'pcb': want_c, 'pub': want_u, 'x': '%x' % int.from_bytes(pubu[1:33], 'big'),
+           'y': '%x' % int.from_bytes(pubu[33:], 'big'), 'priv': '0'}
+    if form != 'pt':
+        exp.update(ph=own, pb=own, comp='0' if form in ('uh', 'ub') else '1')
+    for k_, v in exp.items():
+        if d.get(k_) != v:
+            return 'public key imported as %s: export %s = %s, the key is %s' % (form, k_, str(d.get(k_))[:140], v)
+    for part in re_.split(' '):
+        name, _, val = part.partition(':')
+        if val != want_c + '/' + want_u:
+            return 'public key imported as %s: its export %s does not import back to the same point (%s)' % (form, name, val[:150])
+    exp_au = b58check(b'\0' + h160(pubu))
+    if au != 'au=' + exp_au:
+        return 'address_uncompressed() = %s, Base58Check(00 || HASH160(04 x y)) = %s' % (au[:60], exp_au)
+    return None
+
+
+def check_bip38rt(t, out):
+    exporter, net, sec, comp, pw, vias = t[1], t[2], unhx(t[3]), t[4] == 't', t[5], t[6]
+    if not out.startswith('E='):
+        return 'encrypt() of a valid private key fails: %s' % out[:60]
+    parts = out.split(' ')
+    e = parts[0][2:]
+    raw = b58dec(e)
+    if raw is None or len(raw) != 43 or raw[:2] != b'\x01\x42' or raw[2] != (0xe0 if comp else 0xc0):
+        return 'BIP38 text %s of a%s key does not start 0142%s' % (e, ' compressed' if comp else 'n uncompressed', 'e0' if comp else 'c0')
+    pubc, pubu = pubs(int.from_bytes(sec, 'big'))
+    wif = b58check(bytes.fromhex(table()[net]['prefix_wif']) + sec + (b'\1' if comp else b''))
+    for v, part in zip(vias, parts[1:]):
+        name, _, val = part.partition(':')
+        d = dict(x.split('=', 1) for x in val.split(',') if '=' in x)
+        what = {'k': 'Key(bip38, password=)', 'h': "HDKey(bip38, password=, witness_type='legacy')", 'f': 'bip38_decrypt()', 'n': 'Key(bip38, password=) without network'}[v]
+        if not d:
+            if v == 'n':
+                continue          # the version byte is not part of a BIP38 text: which network it lands on is not decided here
+            return '%s refuses the BIP38 export of the key: %s' % (what, val[:60])
+        if d.get('sec') != sec.hex():
+            return '%s: secret %s, exported %s' % (what, d.get('sec'), sec.hex())
+        if d.get('comp') != ('1' if comp else '0'):
+            return '%s: compressed=%s, the exported key had compressed=%s' % (what, d.get('comp'), comp)
+        if v != 'f' and d.get('pub') != (pubc if comp else pubu).hex():
+            return '%s: public key %s, exported key had %s' % (what, d.get('pub'), (pubc if comp else pubu).hex())
+        if v in 'kh' and (d.get('net') != net or d.get('wif') != wif):
+            return '%s: network %s / WIF %s, exported key had %s / %s' % (what, d.get('net'), d.get('wif'), net, wif)
     return None
 
 
